@@ -150,6 +150,26 @@ def env():
     return E
 
 
+def cmd_props(obj_or_cls):
+    """(commanded property, priority array, relinquish default) names of a class built with the
+    Commandable() factory — read from the mix-in's own property list —, or None"""
+    cls = obj_or_cls if isinstance(obj_or_cls, type) else type(obj_or_cls)
+    if getattr(cls, "_pv_choice", None) is None:
+        return None
+    mix = [c for c in cls.__mro__ if "_pv_choice" in vars(c)]
+    if not mix:
+        return None
+    names = [p.identifier for p in mix[0].properties]
+    return tuple(names[:3])
+
+
+# Commandable() on a custom property name: (registered type, datatype, commanded property) —
+# with an unrelated presentValue on the same object (first three) and without one
+CMDX = [("loop", "Real", "setpoint"), ("accumulator", "Unsigned", "maxPresValue"),
+        ("binaryInput", "Polarity", "polarity"), ("notificationClass", "Unsigned", "notificationClass"),
+        ("program", "CharacterString", "descriptionOfHalt"), ("file", "Unsigned", "fileSize")]
+
+
 def cmd_class_names(E):
     """the commandable classes of local/object.py whose present value is atomic
     and that can be constructed on the tree under test"""
@@ -236,14 +256,30 @@ def hex_of_any(a):
 
 def elem_item(E, sub, v):
     """one element (or scalar) as the library would encode it -> {"enc": tags} | {"unenc": refusal}"""
-    from bacpypes.constructeddata import Any
+    from bacpypes.constructeddata import Any, AnyAtomic
     from bacpypes.primitivedata import Atomic
+    # plain (immutable) values of atomic classes are encoded once per process
+    key = None
+    if issubclass(sub, Atomic) and not issubclass(sub, AnyAtomic) and not isinstance(v, Atomic):
+        try:
+            key = (sub, type(v), tuple(v) if isinstance(v, list) else repr(v) if isinstance(v, float) else v)
+            hit = _ENC_CACHE.get(key)
+            if hit is not None:
+                return hit
+        except TypeError:
+            key = None
     try:
         a = Any()
         a.cast_in(sub(v) if issubclass(sub, Atomic) else v)
-        return {"enc": jt(a.tagList)}
+        out = {"enc": jt(a.tagList)}
     except Exception as e:
-        return {"unenc": E.tr.refusal_of_exception(e)}
+        out = {"unenc": E.tr.refusal_of_exception(e)}
+    if key is not None and len(_ENC_CACHE) < 200000:
+        _ENC_CACHE[key] = out
+    return out
+
+
+_ENC_CACHE = {}
 
 
 def pval_of(E, dt, value):
@@ -293,6 +329,69 @@ def atom_classes():
         ATOM_CLASSES = [pd.Boolean, pd.Unsigned, pd.Integer, pd.Real, pd.Double, pd.OctetString,
                         pd.CharacterString, pd.BitString, pd.Enumerated, pd.Date, pd.Time, pd.ObjectIdentifier]
     return ATOM_CLASSES
+
+
+CHARSET = [False]      # True: character strings may travel in character sets 3 / 4 / 5
+CODECS = {0: "utf_8", 3: "utf_32_be", 4: "utf_16_be", 5: "latin_1"}
+
+
+def charset_string(text, cs):
+    """a CharacterString whose tag content is hand-made: character-set octet `cs` + the text in
+    that character set (ISO 10646 UCS-4 = 3 and UCS-2 = 4 big-endian, ISO 8859-1 = 5); falls back
+    to UCS-2 when the text does not exist in the set.  (Sets 1 and 2 — DBCS, JIS — are not
+    decoded by the library: it stores a placeholder text; not exercised.)"""
+    from bacpypes.primitivedata import CharacterString
+    try:
+        raw = text.encode(CODECS[cs])
+    except UnicodeEncodeError:
+        cs, raw = 4, text.encode(CODECS[4])
+    v = CharacterString(text)
+    v.strEncoding, v.strValue = cs, raw
+    return v
+
+
+def own_text(data):
+    """the text a character-string tag content denotes, decoded here (not by the library)"""
+    if not data or data[0] not in CODECS:
+        return None
+    try:
+        return data[1:].decode(CODECS[data[0]])
+    except UnicodeDecodeError:
+        return None
+
+
+def same_modulo_charset(t1, t2):
+    """two tag lists that differ at most in the character set of string contents: same tags, and
+    where the content differs both denote the same text (code points)"""
+    if len(t1) != len(t2):
+        return False
+    for a, b in zip(t1, t2):
+        if a[0] != b[0] or a[1] != b[1]:
+            return False
+        if a[3] != b[3]:
+            ta, tb = own_text(bytes.fromhex(a[3])), own_text(bytes.fromhex(b[3]))
+            if ta is None or ta != tb:
+                return False
+    return True
+
+
+def gen_tags2(E, klass, rng):
+    """(tags as sent, canonical tags or None): the same random value rendered twice — once with
+    character strings in character sets 0/3/4/5, once all UTF-8 (what the device stores and
+    answers); None when the two renderings are identical"""
+    state = rng.getstate()
+    CHARSET[0] = True
+    try:
+        sent = gen_tags(E, klass, rng)
+    finally:
+        CHARSET[0] = False
+    after = rng.getstate()
+    rng.setstate(state)
+    canon = gen_tags(E, klass, rng)
+    rng.setstate(after)
+    if sent is None or canon is None or not same_modulo_charset(sent, canon):
+        return canon, None
+    return sent, (canon if canon != sent else None)
 
 
 def string_like(klass):
@@ -350,7 +449,11 @@ def gen_atomic(klass, rng):
     if issubclass(klass, pd.OctetString):
         return bytes(rng.getrandbits(8) for _ in range(rng.choice([0, 1, 2, 5, 9])))
     if issubclass(klass, pd.CharacterString):
-        return rng.choice(["", "a", "name-%d" % rng.randrange(1000), "éè 中", "x" * rng.choice([4, 5, 300])])
+        text = rng.choice(["", "a", "name-%d" % rng.randrange(1000), "éè 中", "Zone é", "x" * rng.choice([4, 5, 300])])
+        cs = rng.choice([0, 0, 0, 3, 4, 5])          # always drawn: both renderings consume the same choices
+        if CHARSET[0] and cs != 0:
+            return charset_string(text, cs)
+        return text
     if issubclass(klass, pd.BitString):
         n = klass.bitLen if klass.bitLen and rng.random() < 0.8 else rng.choice([0, 1, 7, 8, 9, 17])
         return [rng.getrandbits(1) for _ in range(n)]
@@ -375,14 +478,18 @@ def gen_field(klass, rng, depth=0):
     """a value as a Sequence attribute / list element of class `klass` holds it"""
     from bacpypes import primitivedata as pd
     from bacpypes import constructeddata as cd
-    if issubclass(klass, cd.AnyAtomic):
+    if issubclass(klass, cd.AnyAtomic) or klass is cd.Any or issubclass(klass, cd.Any):
+        # opaque to the device: an Any keeps its tags, an AnyAtomic its decoded Atomic (which
+        # re-encodes with the character set it arrived in) — no character-set variants inside
         k = rng.choice(atom_classes())
-        return k(gen_atomic(k, rng))
+        keep, CHARSET[0] = CHARSET[0], False
+        try:
+            v = k(gen_atomic(k, rng))
+        finally:
+            CHARSET[0] = keep
+        return v if issubclass(klass, cd.AnyAtomic) else cd.Any(v)
     if issubclass(klass, pd.Atomic):
         return gen_atomic(klass, rng)
-    if klass is cd.Any or issubclass(klass, cd.Any):
-        k = rng.choice(atom_classes())
-        return cd.Any(k(gen_atomic(k, rng)))
     if issubclass(klass, (cd.Array, cd.List)) or klass in cd._sequence_of_classes:
         fixed = getattr(klass, "fixed_length", None)
         n = fixed if fixed is not None else (0 if depth > 3 else rng.choice([0, 1, 1, 2, 3]))
@@ -476,6 +583,15 @@ def get_class(E, kind, otname, own=()):
     elif kind == "cmd":
         cls = getattr(lo, otname)          # here `otname` is the class name
         bo.register_object_type(cls, vendor_id=999)
+    elif kind == "cmdx":
+        # the documented use of the factory with a custom name: Commandable(datatype, 'setpoint')
+        import bacpypes.primitivedata as pd
+        import bacpypes.basetypes as bt
+        base = bo.registered_object_types[(otname, 0)]
+        dtname, pvname = own
+        dt = getattr(pd, dtname, None) or getattr(bt, dtname)
+        cls = type(base.__name__ + "Cmdx", (lo.Commandable(dt, pvname), base), {})
+        bo.register_object_type(cls, vendor_id=999)
     else:
         raise core.Infra("bad class kind " + kind)
     E.classes[key] = cls
@@ -523,6 +639,17 @@ def gen_fixture(E, rng, types, n_cmd=3):
         objs.append({"kind": "cmd", "type": cname, "inst": 100 + inst, "name": "%s-%d" % (cname, inst),
                      "own": [], "init": {}, "plain": []})
         inst += 1
+    for otname, dtname, pvname in rng.sample(CMDX[:3], 1) + rng.sample(CMDX[3:], 1):
+        cls = get_class(E, "cmdx", otname, (dtname, pvname))
+        init = {}
+        unrelated = cls._properties.get("presentValue")
+        if unrelated is not None and pvname != "presentValue":
+            tags = gen_tags(E, unrelated.datatype, rng)
+            if tags is not None:
+                init["presentValue"] = tags
+        objs.append({"kind": "cmdx", "type": otname, "inst": 300 + inst, "name": "%s-cmdx-%d" % (otname, inst),
+                     "own": [dtname, pvname], "init": init, "plain": []})
+        inst += 1
     ot = rng.choice(["analogValue", "binaryInput", "characterstringValue"])
     objs.append({"kind": "nw", "type": ot, "inst": 200 + inst, "name": "nw-%d" % inst, "own": [],
                  "init": {}, "plain": []})
@@ -546,6 +673,7 @@ class Fixture:
         self.dev = (E.AppCov if spec.get("cov") else E.App)(self.devobj, self.vlan)
         self.dest = E.Address(2)
         self.objects = []          # (spec, instance)
+        self._plan = {}            # per property table: what a dump visits
         self.shadow = {}           # oracle's own record of the commands it has sent: (type, inst) -> {priority: value hex}
         for o in spec["objects"]:
             cls = get_class(E, o["kind"], o["type"], o["own"])
@@ -578,10 +706,15 @@ class Fixture:
         for _spec, inst in self.all_objects():
             t, i = inst._values["objectIdentifier"]
             props = []
-            for name, p in inst._properties.items():
-                if E.sch.custom(p) in ("computed", "propList"):
-                    continue
-                props.append([E.pidnum[name], digest_pval(pval_of(E, p.datatype, inst._values.get(name)))])
+            plan = self._plan.get(id(inst._properties))
+            if plan is None:
+                plan = self._plan[id(inst._properties)] = [
+                    (name, E.pidnum[name], p.datatype) for name, p in inst._properties.items()
+                    if E.sch.custom(p) not in ("computed", "propList")]
+            values = inst._values
+            for name, pid, dt in plan:
+                v = values.get(name)
+                props.append([pid, None if v is None else digest_pval(pval_of(E, dt, v))])
             out.append({"oid": [E.otnum.get(t, t), i], "props": props})
         return out
 
@@ -628,8 +761,8 @@ class Fixture:
                 if pv is not None:
                     init.append([E.pidnum[name], pv])
             cmd = None
-            if getattr(cls, "_pv_choice", None) is not None:
-                cmd = [E.pidnum["presentValue"], E.pidnum["priorityArray"], E.pidnum["relinquishDefault"]]
+            if cmd_props(cls) is not None:
+                cmd = [E.pidnum[n] for n in cmd_props(cls)]
             t, i = inst._values["objectIdentifier"]
             reqs.append({"op": "add", "oid": [E.otnum[t], i], "base": E.otnum[cls.objectType], "own": own,
                          "extra": extra, "replace": replace, "cmd": cmd, "init": init, "local": spec["kind"] == "dev"})
@@ -725,7 +858,9 @@ def wire_of(E, fx, op):
     from bacpypes.primitivedata import Atomic, Unsigned
     from bacpypes.constructeddata import Array, List, ArrayOf, AnyAtomic
     from bacpypes.errors import RejectException
-    tags = op["tags"]
+    # a value sent with strings in another character set is described to the model by its
+    # canonical (all UTF-8) rendering: the device stores the text, not the octets
+    tags = op.get("canon") or op["tags"]
     whole = {"chunks": [tags], "dec": "ok"}
     obj = fx.find(op["oid"])
     if obj is None:
@@ -825,11 +960,13 @@ def gen_read(E, fx, rng):
 def gen_write(E, fx, rng):
     from bacpypes.constructeddata import Array, List
     from bacpypes.primitivedata import Unsigned, Null, Real, Double, Enumerated
+    canon = None
     oid, inst = pick_object(E, fx, rng)
     pid = pick_property(E, fx, inst, rng, for_write=True)
     name = E.pidname.get(pid)
     p = inst._properties.get(name) if inst is not None and name else None
-    is_cmd = inst is not None and getattr(type(inst), "_pv_choice", None) is not None
+    cp = cmd_props(inst) if inst is not None else None
+    is_cmd = cp is not None
     n = cur_len(inst, name) if p is not None else 0
     idx = None
     vclass = "typed"
@@ -867,7 +1004,7 @@ def gen_write(E, fx, rng):
         m = rng.choice([n, n, n + 1, max(n - 1, 0), 0, n + 2] if fixed is None else [fixed, fixed, n + 1, 0])
         tags = jt(any_of_value(Unsigned(m)).tagList)
     else:
-        tags = gen_tags(E, klass, rng)
+        tags, canon = gen_tags2(E, klass, rng)
         if tags is None:
             tags = [[0, 0, 0, ""]]
             vclass = "null"
@@ -879,10 +1016,13 @@ def gen_write(E, fx, rng):
             tags = jt(any_of_value(Unsigned(n + 2)).tagList)
     prio = rng.choice([None, None, None, 1, 8, 16, rng.randrange(1, 17), 0, 17, -1]) if (is_cmd or rng.random() < 0.2) else None
     op = {"op": "wp", "oid": oid, "pid": pid, "idx": idx, "tags": tags, "prio": prio, "vclass": vclass}
+    if canon is not None and tags is not None and same_modulo_charset(tags, canon):
+        op["canon"] = canon          # the same value with every string in UTF-8
     # clauses owned by C17 (see ASSUMPTIONS): keep them out of the stream
-    if is_cmd and name == "priorityArray" and idx not in (None, 0) and vclass != "null":
+    if is_cmd and name == cp[1] and idx not in (None, 0) and vclass != "null":
         op["tags"], op["vclass"] = [[0, 0, 0, ""]], "null"
-    if is_cmd and name == "presentValue" and p is not None and tags and tags != [[0, 0, 0, ""]]:
+        op.pop("canon", None)
+    if is_cmd and name == cp[0] and p is not None and tags and tags != [[0, 0, 0, ""]]:
         if issubclass(p.datatype, Enumerated) and tags[0][1] == 9:
             v = int.from_bytes(bytes.fromhex(tags[0][3]) or b"\0", "big")
             if v not in p.datatype._xlate_table:
@@ -970,6 +1110,7 @@ def directed_ops(E, fx, rng, limit=70):
                 if tags is not None:
                     must.append({"op": "wp", "oid": oid, "pid": pid, "idx": None, "tags": tags, "prio": None,
                                  "vclass": "typed"})
+            must.extend(charset_ops(E, inst, oid, name, p, rng))
             k = limited_unsigned(p.datatype)
             if k is not None and p.mutable and inst._values.get(name) is not None:
                 for vclass, make in (("typed", lambda: gen_tags(E, p.datatype, rng)),
@@ -978,8 +1119,8 @@ def directed_ops(E, fx, rng, limit=70):
                     if tags is not None:
                         must.append({"op": "wp", "oid": oid, "pid": pid, "idx": None, "tags": tags, "prio": None,
                                      "vclass": vclass})
-        if getattr(type(inst), "_pv_choice", None) is not None:
-            p = inst._properties["presentValue"]
+        if cmd_props(inst) is not None:
+            p = inst._properties[cmd_props(inst)[0]]
             for prio in (1, 16, None, 0, 17):
                 tags = None
                 for _ in range(8):
@@ -989,13 +1130,54 @@ def directed_ops(E, fx, rng, limit=70):
                         break
                     tags = None
                 if tags is not None:
-                    ops.append({"op": "wp", "oid": oid, "pid": E.pidnum["presentValue"], "idx": None, "tags": tags,
+                    ops.append({"op": "wp", "oid": oid, "pid": E.pidnum[cmd_props(inst)[0]], "idx": None, "tags": tags,
                                 "prio": prio, "vclass": "typed"})
     rng.shuffle(ops)
     return falsy_command_ops(E, fx, rng) + must + boundary_ops(E, fx, rng) + ops[:limit]
 
 
 THOROUGH = [0]
+
+
+def charset_ops(E, inst, oid, name, p, rng):
+    """a writable character-string property (scalar, array, list): one write per character set
+    3 / 4 / 5 — whole value or an array element —, each followed by a ReadPropertyMultiple"""
+    from bacpypes.primitivedata import CharacterString
+    from bacpypes.constructeddata import Array, List, Any
+    dt = p.datatype
+    k = dt.subtype if issubclass(dt, (Array, List)) else dt
+    if not (isinstance(k, type) and issubclass(k, CharacterString)) or not p.mutable \
+            or inst._values.get(name) is None or E.sch.custom(p) not in ("std", "wrName") or rng.random() < 0.5:
+        return []
+    ops, pid = [], E.pidnum[name]
+    for cs in (3, 4, 5):
+        text = rng.choice(["Zone é", "a", "north-%d" % rng.randrange(100), "éè 中" if cs != 5 else "ÿþ"])
+        if name == "objectName":
+            text += "-%d-%d" % (oid[1], cs)            # names stay unique
+        sent, canon, idx = Any(), Any(), None
+        if issubclass(dt, Array):
+            n = cur_len(inst, name)
+            fixed = getattr(dt, "fixed_length", None)
+            if n >= 1 and rng.random() < 0.5:
+                idx = rng.choice([1, n])
+                sent.cast_in(charset_string(text, cs)); canon.cast_in(CharacterString(text))
+            else:
+                for j in range(fixed if fixed is not None else 2):
+                    sent.cast_in(charset_string(text + str(j), cs)); canon.cast_in(CharacterString(text + str(j)))
+        elif issubclass(dt, List):
+            for j in range(2):
+                sent.cast_in(charset_string(text + str(j), cs)); canon.cast_in(CharacterString(text + str(j)))
+        else:
+            sent.cast_in(charset_string(text, cs)); canon.cast_in(CharacterString(text))
+        op = {"op": "wp", "oid": oid, "pid": pid, "idx": idx, "tags": jt(sent.tagList), "prio": None,
+              "vclass": "typed", "boundary": True}
+        if jt(canon.tagList) != op["tags"]:
+            op["canon"] = jt(canon.tagList)
+        if cmd_props(inst) is not None and name == cmd_props(inst)[0]:
+            op["prio"] = rng.choice([None, 7])
+        ops.append(op)
+        ops.append({"op": "rpm", "specs": [{"oid": oid, "refs": [{"pid": pid, "idx": idx}]}]})
+    return ops
 
 
 def boundary_ops(E, fx, rng, per_object=3):
@@ -1066,9 +1248,37 @@ def falsy_command_ops(E, fx, rng):
     ops = []
     NULL = [[0, 0, 0, ""]]
     for spec, inst in fx.all_objects():
-        if getattr(type(inst), "_pv_choice", None) is None:
+        cp = cmd_props(inst)
+        if cp is None:
             continue
-        p = inst._properties["presentValue"]
+        p = inst._properties[cp[0]]
+        t, i = inst._values["objectIdentifier"]
+        oid, pid = [E.otnum[t], i], E.pidnum[cp[0]]
+        if cp[0] != "presentValue":
+            # Commandable() on a custom name: command the value an UNRELATED presentValue of the same
+            # object happens to hold, over another value, and relinquish again; read the property,
+            # the priority array and the relinquish default (the oracle reads the property itself)
+            other = inst._properties.get("presentValue")
+            same = None
+            if other is not None and inst._values.get("presentValue") is not None and other.datatype is p.datatype:
+                same = elem_item(E, other.datatype, inst._values["presentValue"]).get("enc")
+            base_v = None
+            for _ in range(20):
+                tg = gen_tags(E, p.datatype, rng)
+                if tg is not None and tg != same and cmd_value_ok(p, tg):
+                    base_v = tg
+                    break
+            if base_v is not None:
+                seq = [(base_v, 10, "typed")]
+                if same is not None and cmd_value_ok(p, same):
+                    seq += [(same, 8, "typed"), (NULL, 8, "null"), (same, None, "typed")]
+                seq += [(NULL, 10, "null"), (base_v, 3, "typed"), (NULL, 3, "null"), (NULL, 16, "null")]
+                for tags, prio, vc in seq:
+                    ops.append({"op": "wp", "oid": oid, "pid": pid, "idx": None, "tags": tags, "prio": prio, "vclass": vc})
+                    ops.append({"op": "rpm", "specs": [{"oid": oid, "refs": [
+                        {"pid": pid, "idx": None}, {"pid": E.pidnum[cp[1]], "idx": None},
+                        {"pid": E.pidnum[cp[1]], "idx": 16 if prio is None else prio},
+                        {"pid": E.pidnum[cp[2]], "idx": None}]}]})
         fz = falsy_tags(p.datatype)
         if fz is None:
             continue
@@ -1080,8 +1290,6 @@ def falsy_command_ops(E, fx, rng):
                 break
         if nz is None:
             continue
-        t, i = inst._values["objectIdentifier"]
-        oid, pid = [E.otnum[t], i], E.pidnum["presentValue"]
         lo, hi = rng.choice([(12, 4), (16, 1), (None, 8), (9, 8)])
         for tags, prio, vc in ((nz, lo, "typed"), (fz, hi, "typed"), (NULL, hi, "null"), (fz, hi, "typed"),
                                (NULL, lo, "null"), (NULL, hi, "null"), (fz, None, "typed"), (nz, 16, "typed"), (fz, 16, "typed")):
@@ -1172,7 +1380,8 @@ def facts(E, fx, op):
     f["array"] = issubclass(p.datatype, Array)
     f["present"] = obj._values.get(p.identifier) is not None or f["custom"] in ("propList", "computed")
     f["len"] = cur_len(obj, p.identifier)
-    f["is_cmd"] = getattr(type(obj), "_pv_choice", None) is not None
+    f["cmd"] = cmd_props(obj)
+    f["is_cmd"] = f["cmd"] is not None
     return f
 
 
@@ -1290,14 +1499,15 @@ def oracle_write(ctx, E, fx, case, op, f, rep, before, after, wire):
     # "typed" = generated from the datatype AND accepted by the library's own decoder on the
     # client side (a value the codec cannot take back is C03's business, not a C15 refusal)
     typed = op.get("vclass") == "typed" and wire.get("dec") == "ok"
-    pure_pa = f["is_cmd"] and p.identifier == "priorityArray"
-    if typed and not p.mutable and not (f["is_cmd"] and p.identifier in ("presentValue", "priorityArray")):
+    cpv, cpa, crd = f["cmd"] if f["is_cmd"] else (None, None, None)
+    pure_pa = f["is_cmd"] and p.identifier == cpa
+    if typed and not p.mutable and not (f["is_cmd"] and p.identifier in (cpv, cpa)):
         if not is_err(rep, "property", "writeAccessDenied"):
             bad("error-matches", "well-typed write to a read-only property answered %r" % (rep,))
         return
     # (a value that encodes as the single application Null tag — the null alternative of a Choice —
     #  is taken by the handler for "Null" and refused: the handler's Null special case, notes/C15.md)
-    if typed and op["tags"] != [[0, 0, 0, ""]] and kind == "reject" and (p.mutable or (f["is_cmd"] and p.identifier == "presentValue")):
+    if typed and op["tags"] != [[0, 0, 0, ""]] and kind == "reject" and (p.mutable or (f["is_cmd"] and p.identifier == cpv)):
         bad("typed", "a value of the property's own datatype (accepted by the client-side decoder) was answered "
             "with Reject %r" % (rep.get("reason"),))
         return
@@ -1307,7 +1517,7 @@ def oracle_write(ctx, E, fx, case, op, f, rep, before, after, wire):
     if op.get("vclass") == "range" and acked:
         bad("typed", "a value beyond the limit of the property's Unsigned datatype was acknowledged")
         return
-    if f["is_cmd"] and p.identifier == "presentValue" and (typed or op.get("vclass") == "null"):
+    if f["is_cmd"] and p.identifier == cpv and (typed or op.get("vclass") == "null"):
         valid_prio = op["prio"] is None or 1 <= op["prio"] <= 16
         if valid_prio and not acked:
             bad("priority", "a command at priority %r was refused with %r" % (op["prio"], rep))
@@ -1328,10 +1538,10 @@ def oracle_write(ctx, E, fx, case, op, f, rep, before, after, wire):
         return
     # the written value: for a constructed value its canonical re-encoding (see wire_of)
     written = hex_of_tags([t for ch in wire["chunks"] for t in ch] if wire.get("dec") == "ok" else op["tags"])
-    if f["is_cmd"] and p.identifier == "presentValue":
+    if f["is_cmd"] and p.identifier == cpv:
         # the command sits in its slot (or the slot is Null after a relinquish)
         prio = 16 if op["prio"] is None else op["prio"]
-        back = rp(E, fx, op["oid"], E.pidnum["priorityArray"], prio)
+        back = rp(E, fx, op["oid"], E.pidnum[cpa], prio)
         if back.get("r") != "ack" or back.get("hex") != written:
             bad("write-then-read", "priorityArray[%d] reads %r after writing %s" % (prio, back, written))
         # ... and presentValue shows the highest-priority command the oracle has sent
@@ -1383,20 +1593,21 @@ def oracle_present_value(ctx, E, fx, case, op, rep):
     value commanded at the lowest occupied priority number according to the oracle's own
     shadow of the commands it has sent, or the relinquishDefault when every slot is empty"""
     slots = fx.shadow.get(tuple(op["oid"]), {})
-    pv = rp(E, fx, op["oid"], E.pidnum["presentValue"], None)
+    cpv, cpa, crd = cmd_props(fx.find(op["oid"]))
+    pv = rp(E, fx, op["oid"], E.pidnum[cpv], None)
     if slots:
         top = min(slots)
         want, why = slots[top], "the command at priority %d" % top
     else:
-        rd = rp(E, fx, op["oid"], E.pidnum["relinquishDefault"], None)
+        rd = rp(E, fx, op["oid"], E.pidnum[crd], None)
         if rd.get("r") != "ack":
             return
         want, why = rd["hex"], "the relinquishDefault (no command left)"
     if pv.get("r") != "ack" or pv.get("hex") != want:
         ctx.fail("present-value", case,
-                 "presentValue reads %r after an acknowledged %s at priority %r; expected %s = %s (commands sent: %r)" % (
-                     pv, "relinquish" if op["tags"] == [[0, 0, 0, ""]] else "command of " + hex_of_tags(op["tags"]),
-                     op["prio"] if op["pid"] == E.pidnum["presentValue"] else op["idx"], why, want,
+                 "%s reads %r after an acknowledged %s at priority %r; expected %s = %s (commands sent: %r)" % (
+                     cpv, pv, "relinquish" if op["tags"] == [[0, 0, 0, ""]] else "command of " + hex_of_tags(op["tags"]),
+                     op["prio"] if op["pid"] == E.pidnum[cpv] else op["idx"], why, want,
                      sorted(slots.items())),
                  op=op, reply=rep, commands=sorted(slots.items()))
 
@@ -1496,7 +1707,8 @@ def signature(E, fx_facts, op, rep):
     if op["op"] == "rp":
         return ("rp", dk, idxc(op["idx"], n), rep.get("r"), code)
     pc = "none" if op["prio"] is None else "in" if 1 <= op["prio"] <= 16 else "out"
-    return ("wp", dk, idxc(op["idx"], n), op.get("vclass"), pc if f.get("is_cmd") else "-", rep.get("r"), code)
+    vc = (op.get("vclass") or "") + ("/charset" if op.get("canon") else "")
+    return ("wp", dk, idxc(op["idx"], n), vc, pc if f.get("is_cmd") else "-", rep.get("r"), code)
 
 
 def run_scenario(ctx, E, fixture_spec, ops=None, rng=None, n_ops=0, stream="e2e", check_every=1):
@@ -1518,10 +1730,11 @@ def run_scenario(ctx, E, fixture_spec, ops=None, rng=None, n_ops=0, stream="e2e"
         f = facts(E, fx, op) if op["op"] != "rpm" else {}
         if op["op"] == "wp":
             wire = wire_of(E, fx, op)
-            before = fx.dump()
+            # (only writes change the device: the dump taken after the previous write is still valid)
+            before = getattr(fx, "last_dump", None) or fx.dump()
             raw, rep = run_op(E, fx, op)
             logged = list(E.vt.errors)
-            after = fx.dump()
+            after = fx.last_dump = fx.dump()
             E.vt.errors[:] = logged
             oracle_write(ctx, E, fx, case_copy(case), op, f, rep, before, after, wire)
             model_reqs.append({"op": "wp", "oid": op["oid"], "pid": op["pid"], "idx": op["idx"], "val": wire, "prio": op["prio"]})
